@@ -15,6 +15,7 @@ INT_BITS = {
 SIGNED = {"i8", "i16", "i32", "i64", "i128", "isize"}
 
 UINT = "crate::Uint"
+BYTES_CONST = "crate::bytes::<impl crate::Uint<BITS, LIMBS>>::BYTES"
 BITS_T = "crate::bit_arr::Bits"
 
 
@@ -196,6 +197,12 @@ class BodyView:
         self.env = {}
         if cfg is not None:
             self.env = {"BITS": cfg[0], "LIMBS": cfg[1]}
+            if "BYTES" in prog.const_params(body):
+                # to_*_bytes::<BYTES> / from_*_bytes::<BYTES> assert BYTES == Self::BYTES on entry
+                # (documented panic otherwise): analysed under that binding
+                v = prog.const_cfg.get(BYTES_CONST, {}).get(cfg)
+                if v is not None:
+                    self.env["BYTES"] = v
         self.blocks = body["blocks"]
         self.nlocals = len(body["locals"])
         self.nargs = body.get("arg_count", 0)
